@@ -333,6 +333,29 @@ theorem new_tally_separates_distinct_results :
     ([a, b].foldl (addResult ctx) []).map (fun s => (s.key, s.result, s.count)) = [("same", a, 1), ("same+", b, 1)] := by
   decide
 
+/-! ### message length: the boundary of what libocr hands over -/
+
+/-- a message of exactly the advertised maximum length is handed over as it is -/
+theorem delivered_at_limit (L : Nat) (o : Option Observation) : delivered L [(L, o)] = [o] := by
+  simp [delivered]
+
+/-- one byte more (or any number of bytes more) and nothing arrives -/
+theorem delivered_over_limit (L k : Nat) (o : Option Observation) : delivered L [(L + 1 + k, o)] = [none] := by
+  simp [delivered]; omega
+
+/-- the vote of a valid observation counts whatever the length of its encoding, up to AND INCLUDING the limit:
+the model has no other length rule (and `Outcome` must have none) -/
+theorem vote_counted_up_to_limit (ctx : Ctx) (lim : Limits) (L len : Nat) (o : Observation) (r : CheckResult)
+    (hl : len ≤ L) (hv : validObservation ctx lim o = true) (hr : r ∈ o.performable) :
+    votes (validObs ctx lim (delivered L [(len, some o)])) r = 1 := by
+  simp [delivered, hl, validObs, hv, votes, hr]
+
+/-- … and a message over the limit has no vote, valid or not -/
+theorem over_limit_no_vote (ctx : Ctx) (lim : Limits) (L len : Nat) (o : Option Observation) (r : CheckResult)
+    (hl : L < len) : votes (validObs ctx lim (delivered L [(len, o)])) r = 0 := by
+  have : ¬ len ≤ L := by omega
+  simp [delivered, this, validObs, votes]
+
 /-! ### non-vacuity -/
 
 example :
